@@ -3,28 +3,29 @@
 import json, sys
 
 # What four rounds of independently seeded changes added to each check (DESIGN 12.3, 12.4); appended to the texts below.
-_CFG5 = " Configurations as built: the four of the property text plus a real 32-bit target (GOARCH=386) in the quick tier, plus GOAMD64=v3 and GODEBUG=cpu.all=off in the thorough tier."
+_CFG5 = " Configurations as built: the four of the property text plus two real 32-bit targets (GOARCH=386, and GOARCH=386 with the library's force64bit tag) in the quick tier, plus GOAMD64=v3 and GODEBUG=cpu.all=off in the thorough tier."
 _HIST = " Receivers are long-lived objects with a past (decoded into, failed decodes, outputs of other routines, recoded), values are written through every mutator, and buffers / option structs handed to the library are overwritten or recycled by the caller right after each call."
+_THRESH = " A coverage-guided monitor (built with block counters) discovers the sizes at which the set of executed library blocks changes (data-dependent blocks masked by calibration), bisects them to the exact value, and drives the operation at each threshold, its small multiples and neighbours against an independent oracle."
 ADDENDA = {
- "C01": " Since the seeded rounds: searched-for challenge scalars (corpus of signatures whose SHA-512 challenge drives the lattice reduction through >= 32-bit shifts, or is unusually small/large), a loop-iteration budget on those and on one case in 25 (non-termination is a verdict on logical steps), failing operations run immediately before one decided call in four, a caching verifier entry point, expanded keys built from buffers that are then overwritten, one option struct toggled between variants." + _CFG5,
- "C02": " Since the seeded rounds: failing operations before signing, one option struct rewritten between calls (context, variant, by-value copies), every other pre-hash identifier refused, entropy readers of every behaviour (short reads, data+EOF), caller-owned accessor results, key buffers recycled between batch adds." + _CFG5,
- "C03": " Since the seeded rounds: receivers with a past, aliased receivers at every term count, term counts to 1500 (quick) / 65539 (thorough), expansions re-targeted while a value copy is alive, tables/expansions whose source point is changed before first use, the invariant T*Z = X*Y on every result." + _CFG5 + " The thorough tier also runs the non-vector backends under GOMAXPROCS=6 and 3.",
+ "C01": _THRESH + " Since the seeded rounds: searched-for challenge scalars (corpus of signatures whose SHA-512 challenge drives the lattice reduction through >= 32-bit shifts, or is unusually small/large), a loop-iteration budget on those and on one case in 25 (non-termination is a verdict on logical steps), failing operations run immediately before one decided call in four, a caching verifier entry point, expanded keys built from buffers that are then overwritten, one option struct toggled between variants, the nil option set through every entry point." + _CFG5,
+ "C02": _THRESH + " Since the seeded rounds: failing operations before signing, one option struct rewritten between calls (context, variant, by-value copies), every other pre-hash identifier refused, entropy readers of every behaviour (short reads, data+EOF), caller-owned accessor results, key buffers recycled between batch adds, a non-expanded batch with repeated signers." + _CFG5,
+ "C03": _THRESH + " Since the seeded rounds: receivers with a past, aliased receivers at every term count, term counts to 1500 (quick) / 65539 (thorough), expansions re-targeted while a value copy is alive, tables/expansions whose source point is changed before first use, the invariant T*Z = X*Y on every result, scalars sharing structure across the terms (all multiples of 2^j, all small, all equal), forced collections between a table/expansion and the points it handed out." + _CFG5 + " The thorough tier also runs the non-vector backends under GOMAXPROCS=6 and 3.",
  "C04": " Since the seeded rounds: every aliasing pattern of every operation, BatchInvert lists to 257 with zeros (both representations) at word-boundary indices, values whose words cancel under XOR/sum accumulators, values with saturated low limbs; an in-situ shadow of every field call made by the library itself during a whole-library workload (under a loop budget)." + _CFG5,
  "C05": " Since the seeded rounds: all aliasing patterns, receiver-in-list and duplicate entries for Sum/Product, long lists of maximal unreduced values, 6000 wide inputs with saturated/empty low parts around both Montgomery radices, L with each 32-bit word replaced by boundary values, cancelling-word pairs for Equal, scalar objects with a past, entropy readers of every behaviour. Runs in seven configurations in both tiers (the four + GOARCH=386, GOAMD64=v3, cpu.all=off).",
  "C06": " As built the differential runs over eleven configurations: the four of the property text + GOARCH=386, GOAMD64=v3, GODEBUG=cpu.all=off and runs under GOMAXPROCS 1/3/6/7; a second pass in the same process checks history independence; the workload includes re-targeted expansions, aliased receivers, the exported constant objects as operands, ladder inputs at word boundaries of the multiply-by-121666, and the bytes (not only the small-order predicate) of triple products.",
  "C07": " Since the seeded rounds: results with structure (a single non-zero byte/word at every offset, words that cancel under XOR/sum) obtained by constructing the peer value as a preimage, every aliasing pattern of ScalarMult/ScalarBaseMult, u resembling the base point, ladder inputs at word boundaries of the multiply-by-121666, the exported Basepoint slice modified in place, entropy readers of every behaviour." + _CFG5,
- "C08": " Since the seeded rounds: ~80 operations incl. those whose secret is the entropy stream (key generation, nonce and witness sampling) and X25519 against peer values constructed so that one secret's result has whole zero words; the block-counter monitor treats the reproducible pattern 'differs exactly when the previous call used the same secret' as a violation; the fork monitor makes its last pre-fork call with secret #0.",
- "C09": " Since the seeded rounds: a deterministic sweep (every pool entry x 32 option sets x expanded / cache miss / cache hit / batch with Add / with AddExpanded), cancelling forgeries (k invalid entries whose errors sum to zero), caller buffers and option structs overwritten or recycled right after Add / AddPublicKey, failing operations before batch verification, searched-for challenge scalars." + _CFG5,
- "C10": " Since the seeded rounds: every decoder/conversion result is used as an operand (Add, Sub, Mul, IsTorsionFree) and its raw coordinates checked (Z != 0, T*Z = X*Y, curve equation); returned slices are caller-owned; points with structured x-coordinates (saturated low limbs, cancelling words, near p; y solved from the curve equation); Equal on pairs whose difference cancels word-wise; u near -1 for SetMontgomery; decoder receivers with a past." + _CFG5,
- "C11": " Since the seeded rounds: the output of every multiplication algorithm taken as a representative (encoding, use as operand, Equal), in-place operations, receivers with a past, re-targeted expansions, tables built from a point that is changed before first use, entropy readers of every behaviour." + _CFG5 + " Both tiers also run the non-vector backends under GOMAXPROCS=6 and 3.",
- "C12": " Since the seeded rounds: XOF transcripts through short-reading readers, key/signature objects decoded into repeatedly (single and batch), objects and buffers overwritten right after NewSigningContext / NewTranscript* / BatchVerifier.Add, one SigningContext shared by eight goroutines deriving transcripts from bytes/hash/XOF sources, entropy readers of every behaviour." + _CFG5,
- "C13": " Since the seeded rounds: operations on the origin transcript interleaved with the life of an RNG builder, entropy readers with short reads and data+EOF, lengths beyond 2^16. Runs in seven configurations in both tiers (the four + GOARCH=386, GOAMD64=v3, cpu.all=off).",
- "C14": " Since the seeded rounds: DST and message handed over as adjacent fields of one frame with a canary tail (no write into caller memory), dirty XOF templates, output lengths to 196656, every digest shorter than 256 bits refused by the suites." + _CFG5,
- "C15": " Since the seeded rounds: keys, proofs and messages handed over as fields of one frame (no write into caller memory), proofs with prover-chosen nonces (k = 0, 1, L-1, ...), one key buffer holding two keys in turn, ProofToHash on every mutated proof, entropy readers of every behaviour." + _CFG5,
- "C16": " Since the seeded rounds: a concurrent phase (eight goroutines over the large-shift scalars, results compared with single-goroutine ones, one shared loop budget), one shared expansion under concurrent triple products, searched-for challenge scalars, an in-situ postcondition monitor on every FindShortVector call made by real verifications (under a loop budget)." + _CFG5,
+ "C08": " Since the seeded rounds: ~80 operations incl. those whose secret is the entropy stream (key generation, nonce and witness sampling) and X25519 against peer values constructed so that one secret's result has whole zero words, comparisons whose public operand equals one of the secrets (decoded operands included), BatchInvert over secret scalars; the block-counter monitor treats the reproducible pattern 'differs exactly when the previous call used the same secret' as a violation; the fork monitor makes its last pre-fork call with secret #0.",
+ "C09": _THRESH + " Since the seeded rounds: a deterministic sweep (every pool entry x 32 option sets x expanded / cache miss / cache hit / batch with Add / with AddExpanded), cancelling forgeries (k invalid entries whose errors sum to zero), caller buffers and option structs overwritten or recycled right after Add / AddPublicKey, failing operations before batch verification, searched-for challenge scalars, look-alike keys in the cache programs, earlier entries coming back as exact or scalar-altered copies." + _CFG5,
+ "C10": " Since the seeded rounds: every decoder/conversion result is used as an operand (Add, Sub, Mul, IsTorsionFree) and its raw coordinates checked (Z != 0, T*Z = X*Y, curve equation); returned slices are caller-owned; points with structured x-coordinates (saturated low limbs, cancelling words, near p; y solved from the curve equation); Equal on pairs whose difference cancels word-wise; u near -1 for SetMontgomery; decoder receivers with a past; inputs of 2^32+32 bytes (untouched virtual memory)." + _CFG5,
+ "C11": " Since the seeded rounds: the output of every multiplication algorithm taken as a representative (encoding, use as operand, Equal), in-place operations, receivers with a past, re-targeted expansions, tables built from a point that is changed before first use, entropy readers of every behaviour, expanded multiscalar products with different static and dynamic lists above the algorithm switch (API-only, so they also run when the observers do not fit)." + _CFG5 + " Both tiers also run the non-vector backends under GOMAXPROCS=6 and 3.",
+ "C12": _THRESH + " Since the seeded rounds: XOF transcripts through short-reading readers, key/signature objects decoded into repeatedly (single and batch), objects and buffers overwritten right after NewSigningContext / NewTranscript* / BatchVerifier.Add, one SigningContext shared by eight goroutines deriving transcripts from bytes/hash/XOF sources, entropy readers of every behaviour, forced collections after derived key objects were dropped, earlier batch entries coming back as exact or scalar-altered copies." + _CFG5,
+ "C13": _THRESH + " Since the seeded rounds: operations on the origin transcript interleaved with the life of an RNG builder, entropy readers with short reads and data+EOF, lengths beyond 2^16, forced collections between Finalize and the reads. Runs in seven configurations in both tiers (the four + GOARCH=386, GOAMD64=v3, cpu.all=off).",
+ "C14": " Since the seeded rounds: DST and message handed over as adjacent fields of one frame with a canary tail (no write into caller memory), dirty XOF templates, output lengths to 196656, every digest shorter than 256 bits refused by the suites, an auxiliary program that links only primitives/h2c." + _CFG5,
+ "C15": " Since the seeded rounds: keys, proofs and messages handed over as fields of one frame (no write into caller memory), proofs with prover-chosen nonces (k = 0, 1, L-1, ...), one key buffer holding two keys in turn, ProofToHash on every mutated proof, entropy readers of every behaviour, the empty message passed as nil." + _CFG5,
+ "C16": " Since the seeded rounds: a concurrent phase (eight goroutines over the large-shift scalars, results compared with single-goroutine ones, one shared loop budget), one shared expansion under concurrent triple products, searched-for challenge scalars, an in-situ postcondition monitor on every FindShortVector call made by real verifications (under a loop budget), near-golden scalars and the non-canonical representatives k+mL of every catalogue entry." + _CFG5,
  "C17": " Since the seeded rounds: 10^6 (quick) / 3*10^7 (thorough) alphabet-digit strings through a big-integer-free checker, carry-propagation chains, scalar objects with a past (recoded, then overwritten through any mutator), an in-situ monitor on every recoding and table lookup the library makes. Quick: default, force32bit, GOARCH=386, GOAMD64=v3, cpu.all=off; thorough: all seven.",
- "C18": " Since the seeded rounds: cold-start processes whose first library operations are issued concurrently (under GOMAXPROCS 1/2/4/all), clients that reuse one scratch key buffer, searched-for challenge scalars and extreme triple products in the stress mix, transcripts over a shared signing context, a sequential-model check of the LRU at capacities 1..300.",
- "C19": " Since the seeded rounds: every input is a guarded slice (spare capacity + canary: no write into caller memory), neutral-state key objects in every verification entry point under all 32 option sets, every kind of pre-hash identifier in every Ed25519 entry point, acceptance compared with a reference decoder for ProofToHash and ScMinimalVartime." + _CFG5,
+ "C18": " Since the seeded rounds: cold-start processes whose first library operations are issued concurrently (under GOMAXPROCS 1/2/4/all), clients that reuse one scratch key buffer, searched-for challenge scalars and extreme triple products in the stress mix, transcripts over a shared signing context, a sequential-model check of the LRU at capacities 1..300, a shared option struct with nil Verify compared before and after use.",
+ "C19": " Since the seeded rounds: every input is a guarded slice (spare capacity + canary: no write into caller memory), neutral-state key objects in every verification entry point under all 32 option sets, every kind of pre-hash identifier in every Ed25519 entry point, acceptance compared with a reference decoder for ProofToHash and ScMinimalVartime, every combination of context length x pre-hash x added randomness x self-verification and all 32 verification option sets in the error-returning entry points, inputs of 2^32+n bytes for the fixed-size decoders." + _CFG5,
  "C20": " Since the seeded rounds: the enumeration is repeated after (a) scribbling over whatever the accessors return, (b) passing every exported constant as an input operand to every family of operations at sizes on both sides of each algorithm switch (constants re-read after each single operation) and re-targeting objects constructed from them, (c) a phase in which the raw tables are re-read in a loop while four goroutines use them; and every table-using entry point is run as the first library call of fresh child processes (GOMAXPROCS 1, 2, default). Runs in seven configurations in both tiers.",
 }
 TECH_ADD = {
